@@ -85,6 +85,54 @@ abbrev BKey := String × Name
 def keyOf (e : Env) (i : Nat) : BKey := ((e.a.binds.getD i default).dir, (e.a.binds.getD i default).intf)
 def aclOfI (e : Env) (i : Nat) : Name := (e.a.binds.getD i default).acl
 
+/-! ### The access-group commands as a list of operations (deleted slices, then added and equalised commands) -/
+
+inductive BOp
+  | delGroup (idx : List Nat)     -- `delCmds` of a slice of device commands
+  | add (b : Bind)                -- `addCmds` of one target command
+  | eq (i : Nat) (b : Bind)       -- `makeEqual` of a kept pair
+  deriving Repr
+
+/-- One round of the loop in `addBinds`. -/
+def addOne (e : Env) (st : St) (b : Bind) : St :=
+  let st := transferAcl e st b.acl
+  { (st.emit (.bind (printBind st b))) with mode := "" }.hit "bind:add"
+
+def applyOp (e : Env) (st : St) : BOp → St
+  | .delGroup idx => delBinds e st idx
+  | .add b => addOne e st b
+  | .eq i b => makeEqualBind e st i b
+
+/-- The operations of `diffBinds` (branch "some parts equal") read off the `diffUnordered` script. -/
+def bindOps (al : List Nat) (bl : List Bind) (diff : List Range) : List BOp :=
+  (diff.flatMap fun r => if r.isDelete then [BOp.delGroup (slice al r.lowA r.highA)] else []) ++
+  (diff.flatMap fun r =>
+    if r.isInsert then (if r.highB ≤ r.lowB then [] else (slice bl r.lowB r.highB).map BOp.add)
+    else if r.isEqual then ((slice al r.lowA r.highA).zip (slice bl r.lowB r.highB)).map fun p => BOp.eq p.1 p.2
+    else [])
+
+/-- Device commands still to handle / target commands handled, after the operations. -/
+def opsEnd : List Nat → List Bind → List BOp → List Nat × List Bind
+  | pend, done, [] => (pend, done)
+  | pend, done, .delGroup idx :: ops => opsEnd (pend.filter fun j => !idx.contains j) done ops
+  | pend, done, .add b :: ops => opsEnd pend (done ++ [b]) ops
+  | pend, done, .eq i b :: ops => opsEnd (pend.filter (· != i)) (done ++ [b]) ops
+
+/-- Side condition of one operation, in the engine's own state. -/
+def opCheck (e : Env) (st : St) (pend : List Nat) (done : List Bind) : BOp → Bool
+  | .delGroup idx => decide idx.Nodup && idx.all fun i => pend.contains i && !st.bNeeded.contains i
+  | .add b =>
+    (e.b.acls.map (·.1)).contains b.acl && e.a.intfs.contains b.intf &&
+    !(e.a.binds.map fun x => (x.dir, x.intf)).contains (b.dir, b.intf) &&
+    !(done.map fun x => (x.dir, x.intf)).contains (b.dir, b.intf) && transferCheck e st b.acl
+  | .eq i b => pend.contains i && pairCheck e st i b
+
+def opsCheck (e : Env) : St → List Nat → List Bind → List BOp → Bool
+  | _, _, _, [] => true
+  | st, pend, done, op :: ops =>
+    opCheck e st pend done op &&
+    opsCheck e (applyOp e st op) (opsEnd pend done [op]).1 (opsEnd pend done [op]).2 ops
+
 /-- Shape of the comparison of the access-group commands in the class: every range of `diffUnordered` keeps
 commands (no command is added or deleted), and the first compared command is not `needed`. -/
 def bindsShape (e : Env) (st : St) (al : List Nat) (bl : List Bind) : Bool :=
@@ -93,15 +141,27 @@ def bindsShape (e : Env) (st : St) (al : List Nat) (bl : List Bind) : Bool :=
   (diffUnordered (al.map fun i => (e.a.binds.getD i default).key) (bl.map (·.key))).all
     (fun r => !r.isDelete && !r.isInsert && r.isEqual)
 
-/-- The access-group part of the class predicate, for the state `st` in which `diffBinds` starts. -/
+/-- The state in which `addCmds` runs in the branch "no parts equal" of `diffBinds`. -/
+def nopartsSt (e : Env) (st : St) (managed : List Nat) : St :=
+  if managed.isEmpty then st else markDeletedBinds e (st.hit "bind:no-parts-equal") managed
+
+/-- The access-group part of the class predicate, for the state `st` in which `diffBinds` starts.
+Branch "some parts equal": slices of device commands may be removed, target commands added, kept pairs equalised;
+afterwards every compared device command is handled and every target command is in place.
+Branch "no parts equal": every compared device command is marked (and removed by `deleteUnused`), every target
+command is added. -/
 def bindsCheck (e : Env) (st : St) (managed : List Nat) : Bool :=
   if managed.isEmpty && e.b.binds.isEmpty then true else
-  let pairs := bindPairs managed e.b.binds
-    (diffUnordered (managed.map fun i => (e.a.binds.getD i default).key) (e.b.binds.map (·.key)))
-  bindsShape e st managed e.b.binds &&
-  decide (pairs.map (·.1) = managed) && e.b.binds.all (fun x => (pairs.map (·.2)).contains x) &&
-  decide (pairs.map fun p => keyOf e p.1).Nodup && decide (pairs.map fun p => (p.2.dir, p.2.intf)).Nodup &&
-  runCheck e st pairs
+  let diff := diffUnordered (managed.map fun i => (e.a.binds.getD i default).key) (e.b.binds.map (·.key))
+  let ops := bindOps managed e.b.binds diff
+  !(!managed.isEmpty && st.bNeeded.contains (managed.headD 0)) && decide (managed.map (keyOf e)).Nodup &&
+  (if diff.any (·.isEqual) then
+    opsCheck e st managed [] ops &&
+    (opsEnd managed [] ops).1.isEmpty && e.b.binds.all (fun x => (opsEnd managed [] ops).2.contains x) &&
+    (opsEnd managed [] ops).2.all (fun x => e.b.binds.contains x)
+  else
+    managed.all (fun i => !st.bNeeded.contains i) &&
+    opsCheck e (nopartsSt e st managed) managed [] (e.b.binds.map BOp.add))
 
 /-- **The class predicate of the end-to-end theorems** (`asa_F1_converges` and its corollaries). -/
 def k2Check (a b : Config) (sc : Scripts) : Bool :=
@@ -200,6 +260,18 @@ def runWhy (e : Env) : St → List (Nat × Bind) → String
       let w := aclStepWhy e { st with bNeeded := makeEqualBind.addSet' p.1 st.bNeeded } a.acl p.2.acl
       if w == "" then "pair-static" else w
 
+def opsWhy (e : Env) : St → List Nat → List Bind → List BOp → String
+  | _, _, _, [] => ""
+  | st, pend, done, op :: ops =>
+    if opCheck e st pend done op then opsWhy e (applyOp e st op) (opsEnd pend done [op]).1 (opsEnd pend done [op]).2 ops
+    else match op with
+      | .delGroup _ => "bind-del-static"
+      | .add b => if transferCheck e st b.acl then "bind-add-static" else "transfer(empty-or-duplicate-text)"
+      | .eq i b =>
+        let a := e.a.binds.getD i default
+        let w := aclStepWhy e { st with bNeeded := makeEqualBind.addSet' i st.bNeeded } a.acl b.acl
+        if w == "" then "pair-static" else w
+
 /-- Why a case is outside class K2 (first failing conjunct). -/
 def k2Why (a b : Config) (sc : Scripts) : String :=
   match checkInterfaces ⟨a, b, sc⟩ {} with
@@ -212,11 +284,12 @@ def k2Why (a b : Config) (sc : Scripts) : String :=
     else if !(decide (a.acls.map (·.1)).Nodup && decide (a.groups.map (·.1)).Nodup) then "names"
     else if !decide (a.binds.map fun x => (x.dir, x.intf)).Nodup then "bind-keys"
     else if !bindsCheck e st managed then
-      (if !bindsShape e st managed b.binds then "bind-added-or-removed"
+      (let diff := diffUnordered (managed.map fun i => (e.a.binds.getD i default).key) (b.binds.map (·.key))
+       if !(diff.any (·.isEqual)) then
+         (let w := opsWhy e (nopartsSt e st managed) managed [] (b.binds.map BOp.add)
+          if w == "" then "bind-no-parts-equal" else w)
        else
-         let pairs := bindPairs managed b.binds
-           (diffUnordered (managed.map fun i => (e.a.binds.getD i default).key) (b.binds.map (·.key)))
-         let w := runWhy e st pairs
+         let w := opsWhy e st managed [] (bindOps managed b.binds diff)
          if w == "" then "bind-cover" else w)
     else if !routesCheck (sortRoutes a.routes) (sortRoutes b.routes)
         (routeDelsOf (sortRoutes a.routes) (sortRoutes b.routes)) (routeInssOf (sortRoutes a.routes) (sortRoutes b.routes)) then "routes"
